@@ -74,6 +74,10 @@ FLOORS = {  # ~45 % of the counts measured on the unchanged tree (quick: 5150 ca
                               "q100_checked": 28000, "nanpercentile_compared": 12500, "nanpercentile_fast_path": 3600},
                  "sets": {"method_chunked": 15, "nanpercentile_path": 10}, "max_skipped_fraction": 0.2},
 }
+# sibling facet (vf/mon/siblings.py): ~45 % of the smallest count of the five quick seeds on the unchanged tree; thorough =
+# quick floor x (thorough / quick stream size) x 0.6.  A run in which the facet never executed is INCONCLUSIVE.
+FLOORS["quick"]["counters"].update({"siblings_built": 2300, "siblings_computed_together": 340, "siblings_with_different_values": 255})
+FLOORS["thorough"]["counters"].update({"siblings_built": 26000, "siblings_computed_together": 3900, "siblings_with_different_values": 2900})
 EXHAUSTIVE_SPACE = {
     "quick": "all 255 chunkings of arrays of length 1..8 x 2 data vectors with duplicates x 5 methods, q=(0,10,25,50,75,90,100)",
     "thorough": "all 255 chunkings of length 1..8 x 4 data vectors x 5 methods + every array over {0,1,3} of length <= 5 x every chunking x 5 methods",
